@@ -282,6 +282,8 @@ struct VSpec {
     typ: usize,
     /// one entry per shift: true = closed tour (has an end place)
     shifts: Vec<bool>,
+    /// all shifts of the vehicle are the SAME detail (same places and times): the actors differ only by identity
+    twin: bool,
 }
 
 #[derive(Clone, Copy, PartialEq)]
@@ -300,6 +302,8 @@ struct FleetWorld {
     /// group of each actor according to the harness's own reading of the spec (not read from `Fleet::groups`)
     group: Vec<usize>,
     closed: Vec<bool>,
+    /// index of the start / end place of each actor (its own number, or the one of its first twin)
+    place: Vec<usize>,
     /// an actor which belongs to another fleet
     foreign: Arc<Actor>,
 }
@@ -324,17 +328,22 @@ impl FleetWorld {
     fn build(name: &'static str, specs: Vec<VSpec>, grouping: Grouping, jobs: &[Job]) -> Self {
         let mut group = vec![];
         let mut closed = vec![];
+        let mut places = vec![];
         let mut vehicles = vec![];
         for (vi, spec) in specs.iter().enumerate() {
             let mut vb = VehicleBuilder::default().id(&format!("{name}_v{vi}")).set_profile_idx(spec.profile);
+            let first = group.len();
             for (si, &is_closed) in spec.shifts.iter().enumerate() {
                 let a = group.len();
-                let mut db = VehicleDetailBuilder::default().set_start_location(START_LOC_BASE + a).set_start_time(0.);
+                // twins share the places of the vehicle's first shift
+                let place = if spec.twin { first } else { a };
+                let mut db = VehicleDetailBuilder::default().set_start_location(START_LOC_BASE + place).set_start_time(0.);
                 if is_closed {
-                    db = db.set_end_location(END_LOC_BASE + a).set_end_time(1_000_000.);
+                    db = db.set_end_location(END_LOC_BASE + place).set_end_time(1_000_000.);
                 }
                 vb = vb.add_detail(db.build().expect("vehicle detail"));
                 closed.push(is_closed);
+                places.push(place);
                 group.push(match grouping {
                     Grouping::Profile => spec.profile,
                     Grouping::TypeShift => spec.typ * 4 + si,
@@ -368,8 +377,12 @@ impl FleetWorld {
         let n = group.len();
         let mut actors: Vec<Option<Arc<Actor>>> = vec![None; n];
         for actor in problem.fleet.actors.iter() {
-            let loc = actor.detail.start.as_ref().expect("start").location;
-            assert!(loc < n && actors[loc].is_none(), "harness: cannot identify actor by start location");
+            // identified by the start location; twins (same detail) take the next free slot behind it
+            let mut loc = actor.detail.start.as_ref().expect("start").location;
+            while loc < n && actors[loc].is_some() {
+                loc += 1;
+            }
+            assert!(loc < n, "harness: cannot identify actor by start location");
             assert_eq!(actor.detail.end.is_some(), closed[loc], "harness: actor end does not follow the spec");
             actors[loc] = Some(actor.clone());
         }
@@ -393,7 +406,7 @@ impl FleetWorld {
         let other = Fleet::new(vec![driver], vec![Arc::new(vehicle)], |_| |_: &Actor| 0usize);
         let foreign = other.actors[0].clone();
 
-        Self { name, problem, actors, group, closed, foreign }
+        Self { name, problem, actors, group, closed, place: places, foreign }
     }
 }
 
@@ -408,7 +421,8 @@ impl World {
     fn build() -> Self {
         let small = Alphabet::build("a3", 2, &[2]);
         let large = Alphabet::build("a5", 3, &[2, 3]);
-        let v = |profile, typ, shifts: &[bool]| VSpec { profile, typ, shifts: shifts.to_vec() };
+        let v = |profile, typ, shifts: &[bool]| VSpec { profile, typ, shifts: shifts.to_vec(), twin: false };
+        let twins = |profile, typ, shifts: &[bool]| VSpec { profile, typ, shifts: shifts.to_vec(), twin: true };
         let fleets = vec![
             FleetWorld::build(
                 "small4",
@@ -435,6 +449,8 @@ impl World {
                 &small.jobs,
             ),
             FleetWorld::build("single1", vec![v(0, 0, &[true])], Grouping::Profile, &small.jobs),
+            // vehicles whose shifts are one and the same detail: the actors are equal in every field and differ by identity only
+            FleetWorld::build("twins7", vec![twins(0, 0, &[true, true]), twins(0, 0, &[false, false, false]), v(0, 0, &[true]), twins(1, 1, &[true, true])], Grouping::Profile, &small.jobs),
         ];
         Self { small, large, fleets }
     }
@@ -1642,8 +1658,8 @@ struct CtxModel {
 fn empty_tour_model(fw: &FleetWorld, a: usize) -> TourModel {
     TourModel {
         closed: fw.closed[a],
-        start: (0, START_LOC_BASE + a),
-        end: (0, END_LOC_BASE + a),
+        start: (0, START_LOC_BASE + fw.place[a]),
+        end: (0, END_LOC_BASE + fw.place[a]),
         acts: vec![],
         state: None,
     }
@@ -2136,7 +2152,7 @@ fn gen_reg_op(rng: &mut Rng, n: usize, ctx: bool) -> ROp {
 }
 
 fn random_reg_history(cx: &mut Cx, w: &World, rng: &mut Rng, case_seed: u64, ctx: bool, want_sample: bool) {
-    let fw = &w.fleets[rng.weighted(&[2.0, 4.0, 4.0, 0.5])];
+    let fw = &w.fleets[rng.weighted(&[2.0, 4.0, 4.0, 0.5, 3.0])];
     let len = 1 + rng.usize_below(40);
     let rand_seed = rng.next_u64();
     cx.stats.evals += 1;
@@ -2146,10 +2162,12 @@ fn random_reg_history(cx: &mut Cx, w: &World, rng: &mut Rng, case_seed: u64, ctx
             ("small4", false) => "registry:small4",
             ("typed12", false) => "registry:typed12",
             ("mixed9", false) => "registry:mixed9",
+            ("twins7", false) => "registry:twins7",
             (_, false) => "registry:single1",
             ("small4", true) => "registry_ctx:small4",
             ("typed12", true) => "registry_ctx:typed12",
             ("mixed9", true) => "registry_ctx:mixed9",
+            ("twins7", true) => "registry_ctx:twins7",
             (_, true) => "registry_ctx:single1",
         },
     );
@@ -2419,6 +2437,7 @@ fn main() {
     run.note("evaluations_unit", json!("one operation history (all steps compared)"));
 
     // floors: "observed nothing" is never a pass
+    run.floor("registry histories on a fleet whose vehicles have identical shifts (actors differ by identity only)", run.observed("registry_fleets", "registry:twins7") + run.observed("registry_fleets", "registry_ctx:twins7"), 500);
     run.floor("histories", run.evaluations(), 1000);
     run.floor("harness-panics-absent", (shared.harness_panics.load(Ordering::Relaxed) == 0) as u64, 1);
     for key in [
